@@ -81,6 +81,21 @@ class SymmetricBandToeplitzOperator(AbstractLinearOperator):
             if fft_size < band_number:
                 raise ValueError('The FFT size should not be less than the number of bands.')
 
+        # the leading axes of the band values are broadcast against the leading axes of the input: unless they
+        # broadcast to the latter, mv does not return the shape declared by the structure
+        band_batch_shape = tuple(band_values.shape[:-1])
+        for leaf in jax.tree.leaves(in_structure):
+            batch_shape = tuple(leaf.shape[:-1])
+            try:
+                broadcast_shape = jnp.broadcast_shapes(band_batch_shape, batch_shape)
+            except ValueError:
+                broadcast_shape = None
+            if broadcast_shape != batch_shape:
+                raise ValueError(
+                    f'The band values of shape {band_values.shape} cannot be broadcast to the input '
+                    f'of shape {leaf.shape}.'
+                )
+
         self.band_values = band_values
         self._in_structure = in_structure
         self.method = method
